@@ -1,1 +1,30 @@
-def main : IO Unit := IO.println "hi"
+import Iavl.Exec
+/-
+  Model driver: reads a history file (one operation per line), executes it on the model and prints
+  `<line number> => <model result>` for every operation line. `?` = the model gives no answer for
+  this observation (it is then judged by the implementation-side oracle only).
+-/
+open Iavl.Exec
+
+partial def loop (h : IO.FS.Stream) (out : IO.FS.Stream) (x : XState) (lineNo : Nat) : IO Unit := do
+  let line ← h.getLine
+  if line.isEmpty then return ()
+  let l := (line.dropRightWhile (fun c => c == '\n' || c == '\r'))
+  if l.isEmpty || l.startsWith "#" then
+    loop h out x (lineNo + 1)
+  else
+    let args := (l.splitOn " ").filter (· ≠ "")
+    let (x', r) := exec x args
+    out.putStrLn (toString (lineNo + 1) ++ " => " ++ r)
+    loop h out x' (lineNo + 1)
+
+def main (argv : List String) : IO UInt32 := do
+  match argv with
+  | [path] =>
+    let hnd ← IO.FS.Handle.mk path IO.FS.Mode.read
+    let out ← IO.getStdout
+    loop (IO.FS.Stream.ofHandle hnd) out init 0
+    return 0
+  | _ =>
+    IO.eprintln "usage: iavl_driver <history-file>"
+    return 2
